@@ -34,7 +34,7 @@ func checkC01(w *World, r *Report) {
 // ---- C01.1 --------------------------------------------------------------------------------------------------
 
 func checkC01Entry(w *World, r *Report) {
-	ru := r.Rule("C01.1", "single matcher, right root, right path: the two matcher functions are called only from the root dispatcher and from themselves; transaction entry points look up in the transaction's own root, iterators in their snapshot root, router entry points in the tree they loaded; entry points taking a request use URL.RawPath when non-empty, else URL.Path", 12)
+	ru := r.Rule("C01.1", "single matcher, right root, right path: the two matcher functions are called only from the root dispatcher and from themselves; transaction entry points look up in the transaction's own root, iterators in their snapshot root, router entry points in the tree they loaded; entry points taking a request use URL.RawPath when non-empty, else URL.Path", 6)
 	lookupRootObligations(w, ru)
 	treeLookup := w.Method("iTree", "lookup")
 	rootsLookup := w.Method("roots", "lookup")
@@ -202,7 +202,7 @@ func meetCnt(a, b cntState) cntState {
 }
 
 func checkC01Counter(w *World, r *Report, id string) {
-	ru := r.Rule(id, "parameter counter invariant: in both matchers, on every path, the count saved in a skipped-node record equals the number of parameters recorded at that moment, a backtrack truncates the parameters to the popped record's count and restores the counter to it, and the walk loop is re-entered with len(params) == counter", 8)
+	ru := r.Rule(id, "parameter counter invariant: in both matchers, on every path, the count saved in a skipped-node record equals the number of parameters recorded at that moment, a backtrack truncates the parameters to the popped record's count and restores the counter to it, and the walk loop is re-entered with len(params) == counter", 4)
 	ru.Idiom("paramCnt++ paired with a single-element append to *c.params", "*c.params = (*c.params)[:skipped.paramCnt]; paramCnt = skipped.paramCnt", "parameters appended without counting just before returning (infix catch-all, sub-context merge)")
 	for _, name := range []string{"lookupByPath", "lookupByDomain"} {
 		af := w.astFuncOf(modulePath, name)
@@ -412,7 +412,7 @@ func checkC01Counter(w *World, r *Report, id string) {
 // ---- C01.3 --------------------------------------------------------------------------------------------------
 
 func checkC01EmptyParams(w *World, r *Report, id string) {
-	ru := r.Rule(id, "empty-parameters precondition: wherever a pooled context is handed to a lookup (entry points) or a sub-context to the path matcher (hostname and infix catch-all sub-lookups), its params have been truncated to zero on every path since it was acquired or last used", 9)
+	ru := r.Rule(id, "empty-parameters precondition: wherever a pooled context is handed to a lookup (entry points) or a sub-context to the path matcher (hostname and infix catch-all sub-lookups), its params have been truncated to zero on every path since it was acquired or last used", 5)
 	p := newProto(w)
 	cf := newCtxFlow(w)
 	paramsF := cf.field("params")
@@ -446,15 +446,15 @@ func checkC01EmptyParams(w *World, r *Report, id string) {
 			})
 		}
 	}
-	if n < 9 {
-		ru.Fail("lookups with pooled contexts", "-", "the entry points and sub-lookups are found", fmt.Sprintf("only %d", n))
+	if n < 5 {
+		r.Unrecognised("%s: only %d lookups with pooled contexts found", id, n)
 	}
 }
 
 // ---- C01.4 --------------------------------------------------------------------------------------------------
 
 func checkC01FullConsumption(w *World, r *Report) {
-	ru := r.Rule("C01.4", "match only on full consumption: every return of a node with tsr == false in the path matcher is dominated by charsMatched == len(path) and charsMatchedInNodeFound == len(current.key), or lies in the catch-all region (key byte is '*'), or hands on the result of the recursive sub-lookup", 3)
+	ru := r.Rule("C01.4", "match only on full consumption: every return of a node with tsr == false in the path matcher is dominated by charsMatched == len(path) and charsMatchedInNodeFound == len(current.key), or lies in the catch-all region (key byte is '*'), or hands on the result of the recursive sub-lookup", 2)
 	af := w.astFuncOf(modulePath, "lookupByPath")
 	n := 0
 	ast.Inspect(af.decl.Body, func(m ast.Node) bool {
@@ -494,15 +494,15 @@ func checkC01FullConsumption(w *World, r *Report) {
 		ru.Check("return "+first+", "+exprStr(ret.Results[1]), w.Pos(ret.Pos()), "direct match only after the whole path and key were consumed (or catch-all / sub-lookup result)", full || star || recursive, kind)
 		return true
 	})
-	if n < 3 {
-		ru.Fail("direct-match returns", w.Pos(af.decl.Pos()), "the matcher's direct-match returns are found", fmt.Sprintf("%d", n))
+	if n < 2 {
+		r.Unrecognised("C01.4: only %d direct-match returns found in lookupByPath", n)
 	}
 }
 
 // ---- C01.5 --------------------------------------------------------------------------------------------------
 
 func checkC01Priority(w *World, r *Report) {
-	ru := r.Rule("C01.5", "priority order: where a static child matches and both wildcard kinds exist, the catch-all alternative is pushed before the parameter alternative (LIFO: the parameter is resumed first); a direct descent into the catch-all child happens only when there is no parameter child; when the parameter child is taken the catch-all child is saved", 3)
+	ru := r.Rule("C01.5", "priority order: where a static child matches and both wildcard kinds exist, the catch-all alternative is pushed before the parameter alternative (LIFO: the parameter is resumed first); a direct descent into the catch-all child happens only when there is no parameter child; when the parameter child is taken the catch-all child is saved", 2)
 	af := w.astFuncOf(modulePath, "lookupByPath")
 	type push struct {
 		pos   token.Pos
@@ -584,7 +584,7 @@ func checkC01Priority(w *World, r *Report) {
 // ---- C01.6 --------------------------------------------------------------------------------------------------
 
 func checkC01TsrLast(w *World, r *Report, id string) {
-	ru := r.Rule(id, "a trailing-slash candidate never pre-empts pending alternatives: in both matchers a return whose tsr result may be true is the final return reached only when no skipped alternative is left (hasSkpNds false); every other return yields tsr == false", 6)
+	ru := r.Rule(id, "a trailing-slash candidate never pre-empts pending alternatives: in both matchers a return whose tsr result may be true is the final return reached only when no skipped alternative is left (hasSkpNds false); every other return yields tsr == false", 3)
 	for _, name := range []string{"lookupByPath", "lookupByDomain"} {
 		af := w.astFuncOf(modulePath, name)
 		ast.Inspect(af.decl.Body, func(m ast.Node) bool {
